@@ -193,6 +193,8 @@ def run(chk):
                 run_on_variants(chk, p2, s2, bm2, "V:borrow_mut@" + cfg, mk_borrow_table(BORROW_MUT_TABLE))
             finally:
                 M.LOCAL_MODELS_ENABLED = True
+    import selftest
+    selftest.expect(chk, "C17", macro_hygiene, "C17.M", "an exported macro with #[cfg(feature = ..)] in its body", "bad_macro")
     import witness
     if True:
         witness.check(chk, "typelevel", "C17", "C17.send")
